@@ -43,6 +43,9 @@
 #include <gatery/simulation/waveformFormats/VCDSink.h>
 #include <gatery/scl/Fifo.h>
 #include <gatery/scl/cdc.h>
+#include <gatery/scl/arch/intel/IntelDevice.h>
+#include <gatery/scl/arch/xilinx/XilinxDevice.h>
+#include <gatery/scl/arch/general/GenericMemory.h>
 #include <gatery/scl/synthesisTools/GHDL.h>
 #include <gatery/scl/synthesisTools/XilinxVivado.h>
 #include <gatery/scl/synthesisTools/IntelQuartus.h>
@@ -225,6 +228,32 @@ static void vecDefault(UInt &u, uint64_t value) {
 	u.SliceableBitVector<UInt, UIntDefault>::operator=(UIntDefault(lit.c_str()));
 }
 
+// Target devices.  `spec` is  "intel|xilinx" ":" ( "custom=" KEY{+KEY} | "device=" STRING | "family=" NAME )
+// e.g. intel:custom=M9K+M20K  (two block RAM primitives of the SAME size category: technology mapping has to choose),
+// xilinx:device=XCKU035-1FBVA900C.  The device object and its primitive descriptions are allocated here, i.e. under
+// the heap perturbation of the running construction.
+static scl::arch::FPGADevice *g_device = nullptr;
+static void setDevice(const std::string &spec) {
+	auto colon = spec.find(':');
+	std::string vendor = spec.substr(0, colon), rest = colon == std::string::npos ? std::string() : spec.substr(colon + 1);
+	std::string yaml = "vendor: " + vendor + "\n";
+	auto eq = rest.find('=');
+	std::string kind = rest.substr(0, eq), val = eq == std::string::npos ? std::string() : rest.substr(eq + 1);
+	for (auto &c : val) if (c == '_') c = ' ';
+	if (kind == "custom") {
+		yaml += "custom_composition:\n";
+		std::istringstream ks(val); std::string k;
+		while (std::getline(ks, k, '+')) if (!k.empty()) yaml += "  " + k + ": true\n";
+	} else if (kind == "device") yaml += "device: \"" + val + "\"\n";
+	else if (kind == "family") yaml += "family: \"" + val + "\"\n";
+	utils::ConfigTree config(YAML::Load(yaml));
+	std::unique_ptr<scl::arch::FPGADevice> dev;
+	if (vendor == "intel") { auto d = std::make_unique<scl::IntelDevice>(); d->fromConfig(config); dev = std::move(d); }
+	else { auto d = std::make_unique<scl::XilinxDevice>(); d->fromConfig(config); dev = std::move(d); }
+	g_device = dev.get();
+	DesignScope::get()->setTargetTechnology(std::move(dev));
+}
+
 class InterpX : public nd::Interp {
 public:
 	bool partitions = false;
@@ -250,10 +279,20 @@ public:
 	virtual void stmt(const std::vector<std::string> &t) override {
 		const std::string &op = t[0];
 		auto setU = [&](const std::string &n, const UInt &v) { auto p = std::make_shared<nd::Val>(); p->v.emplace<UInt>(v); b.vars[n] = p; };
-		if (op == "mem") {            // mem NAME depth width [zero]
+		if (op == "device") {         // device SPEC   (see setDevice; first statement of a program)
+			setDevice(t[1]);
+		} else if (op == "regb") {    // regb NAME SRC : register that may be retimed backwards (into a memory's read port)
+			auto p = std::make_shared<nd::Val>(); p->v.emplace<UInt>(reg(asU(t[2]), {.allowRetimingBackward = true})); b.vars[t[1]] = p;
+		} else if (op == "mem") {            // mem NAME depth width [zero] [type=small|medium|large] [lat=N]
 			mems.push_back(std::make_unique<Memory<UInt>>(std::stoull(t[2]), UInt(BitWidth(std::stoull(t[3])))));
 			mems.back()->setName(t[1]);
-			if (t.size() > 4 && t[4] == "zero") mems.back()->initZero();
+			MemType mt = MemType::DONT_CARE; size_t lat = ~0ull; bool typed = false;
+			for (size_t i = 4; i < t.size(); i++) {
+				if (t[i] == "zero") mems.back()->initZero();
+				else if (t[i].rfind("type=", 0) == 0) { typed = true; std::string v = t[i].substr(5); mt = v == "small" ? MemType::SMALL : v == "medium" ? MemType::MEDIUM : v == "large" ? MemType::LARGE : MemType::DONT_CARE; }
+				else if (t[i].rfind("lat=", 0) == 0) { typed = true; lat = std::stoull(t[i].substr(4)); }
+			}
+			if (typed) { if (lat != ~0ull) mems.back()->setType(mt, lat); else mems.back()->setType(mt); }
 			memIdx[t[1]] = mems.size() - 1;
 		} else if (op == "memwrite") { // memwrite MEM ADDR DATA [COND]
 			auto &m = *mems.at(memIdx.at(t[1]));
@@ -482,8 +521,53 @@ static void defaultFamily(int v) {
 	pinOut(third).setName("third");
 }
 
+// Designs exported for a TARGET DEVICE: technology mapping replaces memories (and FIFOs' memories) by the device's
+// embedded memory primitives, chosen from a priority list.  Devices assembled through custom_composition may hold
+// several primitives of EQUAL priority (same size category); which one serves a memory must not depend on where the
+// primitive descriptions were allocated.
+static void deviceDesign(const std::string &spec, int shape) {
+	setDevice(spec);
+	auto ramPort = [](const std::string &n, size_t depth, size_t width, MemType type, size_t lat, bool zero) {
+		Memory<UInt> mem(depth, UInt(BitWidth(width)));
+		mem.setType(type, lat);
+		mem.setName(n);
+		if (zero) mem.initZero();
+		BitWidth aw = BitWidth::count(depth);
+		UInt wrAddr = pinIn(aw).setName(n + "_wr_addr");
+		UInt wrData = pinIn(BitWidth(width)).setName(n + "_wr_data");
+		Bit wrEn = pinIn().setName(n + "_wr_en");
+		UInt rdAddr = pinIn(aw).setName(n + "_rd_addr");
+		UInt rdData = mem[rdAddr];
+		IF (wrEn) mem[wrAddr] = wrData;
+		for (size_t i = 0; i < lat; i++) rdData = reg(rdData, {.allowRetimingBackward = true});
+		pinOut(rdData).setName(n + "_rd_data");
+	};
+	if (shape == 0) ramPort("buffer", 512, 8, MemType::MEDIUM, 1, false);
+	else if (shape == 1) { ramPort("bufa", 512, 8, MemType::MEDIUM, 1, false); ramPort("bufb", 1024, 4, MemType::MEDIUM, 2, false); ramPort("tiny", 16, 4, MemType::SMALL, 0, false); }
+	else if (shape == 2) { ramPort("lut", 32, 6, MemType::SMALL, 1, false); ramPort("any", 256, 8, MemType::DONT_CARE, 1, false); }
+	else if (shape == 3) {
+		scl::Fifo<UInt> fifo(64, UInt(8_b), scl::FifoLatency(1));
+		Bit push = pinIn().setName("push"), pop = pinIn().setName("pop");
+		UInt pushData = pinIn(8_b).setName("push_data");
+		IF (push & !fifo.full()) fifo.push(pushData);
+		UInt popData = fifo.peek();
+		IF (pop & !fifo.empty()) fifo.pop();
+		pinOut(fifo.full()).setName("full"); pinOut(fifo.empty()).setName("empty"); pinOut(popData).setName("pop_data");
+		fifo.generate();
+		ramPort("side", 512, 8, MemType::MEDIUM, 1, false);
+	} else { ramPort("big", 2048, 16, MemType::LARGE, 2, false); ramPort("mid", 512, 9, MemType::MEDIUM, 1, false); }
+}
+
 static std::vector<HandDesign> handDesigns() {
 	std::vector<HandDesign> res;
+	res.push_back({"h_dev_intel_m9k_m20k", "entity", "quartus", [] { deviceDesign("intel:custom=M9K+M20K", 0); }});
+	res.push_back({"h_dev_intel_m20k_m9k_mlab", "entity", "quartus", [] { deviceDesign("intel:custom=MLAB+M20K+M9K+M20KStratix10Agilex", 1); }});
+	res.push_back({"h_dev_intel_fifo", "single", "quartus", [] { deviceDesign("intel:custom=M20K+M20KStratix10Agilex+MLAB", 3); }});
+	res.push_back({"h_dev_intel_builtin", "entity", "quartus", [] { deviceDesign("intel:device=10CX220YF780I5G", 1); }});
+	res.push_back({"h_dev_intel_agilex", "single", "default", [] { deviceDesign("intel:family=Agilex", 4); }});
+	res.push_back({"h_dev_xilinx_lutrams", "entity", "vivado", [] { deviceDesign("xilinx:custom=Lutram7Series+LutramUltrascale+BlockramUltrascale", 2); }});
+	res.push_back({"h_dev_xilinx_builtin", "entity", "vivado", [] { deviceDesign("xilinx:device=XCKU035-1FBVA900C", 1); }});
+	res.push_back({"h_dev_xilinx_fifo", "single", "vivado", [] { deviceDesign("xilinx:custom=LutramUltrascale+Lutram7Series+BlockramUltrascale", 3); }});
 	res.push_back({"h_default0", "single", "default", [] { defaultFamily(0); }});
 	res.push_back({"h_default1", "entity", "ghdl", [] { defaultFamily(1); }});
 	res.push_back({"h_default2", "entity", "vivado", [] { defaultFamily(2); }});
@@ -810,6 +894,7 @@ static bool construct(const Job &job, const std::string &dir, int perturbLevel, 
 		perturb::state = pseed * 0x9E3779B97F4A7C15ull + 12345;
 		if (perturbLevel >= 2) perturb::fillPools();
 		perturb::level = perturbLevel;
+		g_device = nullptr;
 		DesignScope design;
 		Clock clock({ .absoluteFrequency = 100'000'000 });
 		ClockScope cs(clock);
@@ -840,6 +925,16 @@ static bool construct(const Job &job, const std::string &dir, int perturbLevel, 
 			for (size_t i = 0; i < c.size(); i++) for (size_t j = i + 1; j < c.size(); j++)
 				if ((c[i].second < c[j].second) != (c[i].first < c[j].first)) cinv++;
 			std::sort(c.begin(), c.end());
+			if (g_device) {
+				// embedded memory primitive descriptions of the target device
+				// (by TYPE in ADDRESS order: independent of the order of the list itself)
+				std::vector<std::pair<uintptr_t, std::string>> ea;
+				for (auto &m : g_device->getEmbeddedMemories().getList()) { auto &ref = *m; ea.push_back({ (uintptr_t)m.get(), typeid(ref).name() }); }
+				std::sort(ea.begin(), ea.end());
+				meta << "embmems " << ea.size() << " byaddress";
+				for (auto &x : ea) meta << " " << x.second;
+				meta << "\n";
+			}
 			meta << "clocks " << c.size() << " inversions " << cinv << "\nclockorder";
 			for (auto &p : c) meta << " " << p.second;
 			meta << "\n";
